@@ -185,14 +185,17 @@ def _validate_impl_once(scn, fixes, lines, workdir, name='TR', timeout=600):
     return {'runs': result, 'wall': wall, 'records': recs, 'out': out, 'labels': sorted(labels)}
 
 
-def obs_projection(run_recs):
-    """What the monitors can see of a run: the observable events (with their thread), crate-level blocking steps and the final queue states"""
+def obs_projection(run_recs, try_ops=()):
+    """What the monitors can see of a run: the observable events (with their thread), crate-level blocking steps, the queue states at the
+    moment a try_sync is called (C09:busy-at-rest looks at them) and the final queue states"""
     key = []
     last_q = None
     for r in run_recs:
         if r['kind'] == 'step':
             if r['obs'] or (r['tb'] and r['op'] in ('wait', 'park', 'join')):
                 key.append((r['t'], r['op'] if r['tb'] else '', tuple((o[0], 0 if o[0] in ('spawn', 'exit') else o[1], o[2]) for o in r['obs'])))
+                if any(o[0] == 'call' and o[1] in try_ops for o in r['obs']):
+                    key.append(('q', tuple((q[0], q[1], q[2]) for q in r['q'])))
             last_q = tuple((q[0], q[1]) for q in r['q'])
         elif r['kind'] == 'end':
             key.append(('end', last_q))
@@ -214,8 +217,9 @@ def monitor_obs(scn, fixes, lines, workdir, name='OT', timeout=600, recs=None, c
         elif cur is not None:
             cur.append(r)
     rep, members = {}, {}
+    try_ops = set(i for i, r in scen.flatten(scn).items() if r['k'] == 'try_sync')
     for run in per_run:
-        key = obs_projection(run)
+        key = obs_projection(run, try_ops)
         if key not in rep:
             rep[key] = run
             members[key] = []
